@@ -105,11 +105,8 @@ theorem assertHttp_no_panic (a : AssertCfg) (r : Resp) : assertHttp a r ≠ .pan
   | none => simp
   | some p =>
     obtain ⟨val, op⟩ := p
-    cases op
-    · exact ite_ne_panic _ _ _ (by simp) (by simp)
-    · exact ite_ne_panic _ _ _ (by simp) (by simp)
-    · exact ite_ne_panic _ _ _ (by simp) (by simp)
-    · simp
+    simp only []
+    split <;> simp
 
 theorem varJsonpath_no_panic (ps : List String) (r : Resp) : varJsonpath ps r ≠ .panic := by
   unfold varJsonpath
@@ -224,10 +221,10 @@ theorem grpcStepOutcome_no_panic (c : GrpcCallCfg) (r : GrpcReply) (code : Nat) 
 
 theorem run_panicked_iff (g : GunShot) : g.run.panicked = g.documentedFatal := by
   cases g with
-  | http h2 lacks cfg tag id path reply =>
-    by_cases hf : (h2 && lacks) = true
+  | http h2 facts cfg tag id path reply =>
+    by_cases hf : (h2 && h2Panics facts reply) = true
     · simp [GunShot.run, GunShot.documentedFatal, hf, shootHttp]
-    · have hf' : (h2 && lacks) = false := by simpa using hf
+    · have hf' : (h2 && h2Panics facts reply) = false := by simpa using hf
       simp only [GunShot.run, GunShot.documentedFatal, hf']
       cases reply with
       | noResponse e => simp [Reply.httpOutcome, shootHttp]
@@ -270,5 +267,121 @@ theorem instanceRun_failed_iff (shots : List ShotResult) :
     · simp [instanceRun, hs]
     · have hs' : s.panicked = false := by simpa using hs
       simp [instanceRun, hs', ih]
+
+/-! ### the pool -/
+
+theorem poolResult_failed_iff (insts : List (List ShotResult)) :
+    poolResult insts = .poolFailed ↔ ∃ shots ∈ insts, ∃ s ∈ shots, s.panicked = true := by
+  unfold poolResult
+  constructor
+  · intro h
+    by_cases hany : insts.any (fun shots => (instanceRun shots).result == .poolFailed) = true
+    · rw [List.any_eq_true] at hany
+      obtain ⟨shots, hs, hr⟩ := hany
+      exact ⟨shots, hs, (instanceRun_failed_iff shots).mp (by simpa using hr)⟩
+    · simp [hany] at h
+  · rintro ⟨shots, hs, hp⟩
+    have : insts.any (fun shots => (instanceRun shots).result == .poolFailed) = true := by
+      rw [List.any_eq_true]
+      exact ⟨shots, hs, by simpa using (instanceRun_failed_iff shots).mpr hp⟩
+    simp [this]
+
+theorem poolResult_finished (insts : List (List ShotResult)) (h : ∀ shots ∈ insts, ∀ s ∈ shots, s.panicked = false) :
+    poolResult insts = .finished := by
+  cases hr : poolResult insts with
+  | finished => rfl
+  | poolFailed =>
+    obtain ⟨shots, hs, s, hss, hp⟩ := (poolResult_failed_iff insts).mp hr
+    rw [h shots hs s hss] at hp
+    exact absurd hp (by decide)
+
+theorem poolSamples_all (insts : List (List ShotResult)) (h : ∀ shots ∈ insts, ∀ s ∈ shots, s.panicked = false) :
+    poolSamples insts = (insts.map fun shots => (shots.map (·.reports)).flatten).flatten ∧
+    poolShots insts = (insts.map List.length).sum := by
+  unfold poolSamples poolShots
+  induction insts with
+  | nil => simp
+  | cons shots rest ih =>
+    obtain ⟨_, h2, h3⟩ := instanceRun_all shots (h shots (List.mem_cons_self ..))
+    obtain ⟨i1, i2⟩ := ih (fun sh hsh => h sh (List.mem_cons_of_mem _ hsh))
+    simp only [List.map_cons, List.flatten_cons, List.sum_cons, h2, h3, i1, i2, and_self]
+
+/-! ### what the samples of a scenario carry -/
+
+/-- with steps that cannot panic, the scenario gun reports exactly the samples of the steps its loop enters -/
+theorem shootScenario_reports (scn : String) (steps : List (StepCfg × Reply)) :
+    (shootScenario scn (steps.map fun (c, r) => { name := c.name, outcome := stepOutcome c r })).reports
+      = ((steps.take (executedSteps (steps.map fun (c, r) => { name := c.name, outcome := stepOutcome c r }))).map
+          fun (c, r) => sampleOfStep scn c r) := by
+  induction steps with
+  | nil => simp [shootScenario, executedSteps]
+  | cons p rest ih =>
+    obtain ⟨c, r⟩ := p
+    simp only [List.map_cons, shootScenario, executedSteps, stepHttp, sampleOfStep]
+    cases ho : stepOutcome c r with
+    | prepErr => simp [ho]
+    | doErr e => simp [ho]
+    | bodyErr st e => simp [ho]
+    | received st post =>
+      cases post with
+      | ok =>
+        simp only []
+        rw [ih]
+        simp [Nat.add_comm 1, List.take_succ_cons, sampleOfStep, ho]
+      | err => simp [ho]
+      | panic => exact absurd ho (stepOutcome_no_panic c r st)
+
+theorem sampleOfStep_completed (scn : String) (c : StepCfg) (resp : Resp) (h : stepCompleted c (.full resp) = true) :
+    sampleOfStep scn c (.full resp) = { tags := stepTag scn c.name, id := 0, proto := resp.status, net := 0 } := by
+  simp only [stepCompleted, Bool.and_eq_true, Bool.not_eq_true', beq_iff_eq] at h
+  simp [sampleOfStep, stepOutcome, h.1, h.2, okSample]
+
+theorem sampleOfStep_failed (scn : String) (c : StepCfg) (r : Reply) (h : stepCompleted c r = false) :
+    sampleOfStep scn c r = { tags := stepTag scn c.name ++ "|" ++ emptyTag, id := 0, proto := 0, net := protoCodeError } := by
+  have herr : errSample scn c.name
+      = { tags := stepTag scn c.name ++ "|" ++ emptyTag, id := 0, proto := 0, net := protoCodeError } := by
+    have hne : stepTag scn c.name ≠ "" := by
+      unfold stepTag
+      intro h0
+      have := congrArg String.length h0
+      simp [String.length_append] at this
+    simp [errSample, addTag, hne, getErrno, isNetError, stripUnderlying, cause, unwrapLoop]
+  rw [← herr]
+  unfold sampleOfStep stepOutcome
+  by_cases hp : c.prepFails = true
+  · simp [hp]
+  · simp only [hp]
+    cases r with
+    | noResponse e => simp
+    | brokenBody st e => simp
+    | full resp =>
+      simp only [stepCompleted, hp, Bool.not_false, Bool.true_and, beq_eq_false_iff_ne, ne_eq] at h
+      simp only [Bool.false_eq_true, if_false]
+      cases hr : runPPs resp c.pps with
+      | ok => exact absurd hr h
+      | err => rfl
+      | panic => exact absurd hr (runPPs_no_panic resp c.pps)
+
+theorem shootGrpcScenario_reports (scn : String) (calls : List (GrpcCallCfg × GrpcReply)) :
+    (shootGrpcScenario scn (calls.map fun (c, r) => { tag := c.tag, outcome := grpcStepOutcome c r })).reports
+      = ((calls.take (executedGrpcSteps (calls.map fun (c, r) => { tag := c.tag, outcome := grpcStepOutcome c r }))).map
+          fun (c, r) => sampleOfCall scn c r) := by
+  induction calls with
+  | nil => simp [shootGrpcScenario, executedGrpcSteps]
+  | cons p rest ih =>
+    obtain ⟨c, r⟩ := p
+    simp only [List.map_cons, shootGrpcScenario, executedGrpcSteps, stepGrpc, sampleOfCall]
+    cases ho : grpcStepOutcome c r with
+    | prepErr => simp [ho]
+    | unknownMethod => simp [ho]
+    | badPayload => simp [ho]
+    | invoked code post =>
+      cases post with
+      | ok =>
+        simp only []
+        rw [ih]
+        simp [Nat.add_comm 1, List.take_succ_cons, sampleOfCall, ho]
+      | err => simp [ho]
+      | panic => exact absurd ho (grpcStepOutcome_no_panic c r code)
 
 end Pandora.Proofs.C19
